@@ -367,7 +367,13 @@ func (e *env) apiFindMACEntry(rng *rand.Rand) {
 func (e *env) apiPrintTable(rng *rand.Rand) { e.s.PrintTable() }
 
 //go:noinline
-func (e *env) apiCapture(rng *rand.Rand) { e.s.Capture(e.mac(1 + rng.Intn(nMAC))) }
+func (e *env) apiCapture(rng *rand.Rand) {
+	k := 1 + rng.Intn(nMAC)
+	e.s.Capture(e.mac(k))
+	if k == 1 { // the refused branch (ErrIsRouter) takes and must release the session lock like the others (seeded C09-r1)
+		e.s.Capture(e.u.MAC("router"))
+	}
+}
 
 //go:noinline
 func (e *env) apiRelease(rng *rand.Rand) { e.s.Release(e.mac(1 + rng.Intn(nMAC))) }
